@@ -1,20 +1,18 @@
 // Kani concrete playback for harness k13_4_writer_bytes (module c13.rs)
 // replay: vcheck.py --replay /verif/replays/C13/k13_4_writer_bytes.playback.rs
 #[test]
-fn kani_concrete_playback_k13_4_writer_bytes_15663102031628192806() {
+fn kani_concrete_playback_k13_4_writer_bytes_9481531623107572161() {
     let concrete_vals: Vec<Vec<u8>> = vec![
-        // 8ul
-        vec![8, 0, 0, 0, 0, 0, 0, 0],
-        // 65535
-        vec![255, 255],
-        // 127
-        vec![127],
-        // 255
-        vec![255],
-        // 0
-        vec![0],
         // 0ul
         vec![0, 0, 0, 0, 0, 0, 0, 0],
+        // 0
+        vec![0, 0],
+        // 0
+        vec![0],
+        // 0
+        vec![0],
+        // 0
+        vec![0],
     ];
     kani::concrete_playback_run(concrete_vals, k13_4_writer_bytes);
 }
